@@ -55,6 +55,8 @@ impl PolicyClient for Cl {
     async fn msg(&self, to: usize, msg: MpcMsg) -> Result<(), E> { self.sh.msgs.fetch_add(1, Ordering::SeqCst); m(self.sh.handles.get().unwrap()[to].mpc_msg(msg).await) }
     async fn output(&self, _to: Url, result: Result<Literal, OutputError>) -> Result<(), E> {
         let s = match result { Ok(l) => format!("Ok({l})"), Err(OutputError::Cancelled) => "Cancelled".to_string(), Err(e) => format!("Err({})", e.to_string().chars().take(60).collect::<String>()) };
+        // a real destination is a network call: the notification has been delivered only when this future completes
+        tokio::time::sleep(Duration::from_millis(6)).await;
         self.sh.events.lock().unwrap().push(format!("output {} {s}", self.me)); self.sh.outputs.lock().unwrap().push((self.me, s)); Ok(())
     }
 }
@@ -116,7 +118,10 @@ async fn do_inject(s: &Sys, inj: Inject, log: &mut Vec<String>) {
     let id = Uuid::from_u128(7);
     let t = Duration::from_millis(1500);
     let res = match inj {
-        Inject::Cancel(p) => { let f = s.handles[p].cancel(); format!("{:?}", tokio::time::timeout(t, f).await.map(|r| r.map_err(|e| format!("{e:?}")))) }
+        Inject::Cancel(p) => { let f = s.handles[p].cancel(); let res = format!("{:?}", tokio::time::timeout(t, f).await.map(|r| r.map_err(|e| format!("{e:?}"))));
+            // what the destination of the cancelled party holds at the very moment `cancel()` returns
+            let now: Vec<String> = s.sh.outputs.lock().unwrap().iter().filter(|(q, _)| *q == p).map(|(_, x)| x.clone()).collect();
+            format!("{res} at-return={}", now.join("|")) }
         Inject::MsgOob(p) => format!("{:?}", tokio::time::timeout(t, s.handles[p].mpc_msg(MpcMsg { from: 9, data: vec![1, 2, 3] })).await.map(|r| r.map_err(|e| format!("{e:?}")))),
         Inject::DupSchedule(p, illtyped) => { let n = s.handles.len(); let pol = policy(n, p, 0, true, id, if illtyped { "pub fn main(a: u8) -> u8 { a + true }" } else if n == 2 { P2 } else { P3 }, false);
             format!("{:?}", tokio::time::timeout(t, s.handles[p].schedule(pol)).await.map(|r| r.map_err(|e| format!("{e:?}").chars().take(60).collect::<String>()))) }
@@ -286,6 +291,8 @@ async fn main() {
                 if ok { let mut bad = vec![];
                     if !o.finished[victim] { bad.push("state machine still running after cancel returned Ok".to_string()); }
                     if outs[victim] && !(got == vec!["Cancelled".to_string()] || got == vec![want.clone()]) { bad.push(format!("destination got {got:?} (want exactly one Cancelled or the real result)")); }
+                    let at_return: Vec<String> = reply.split("at-return=").nth(1).map(|x| x.split('|').filter(|y| !y.is_empty()).map(|y| y.to_string()).collect()).unwrap_or_default();
+                    if outs[victim] && at_return != got { bad.push(format!("when cancel() returned Ok the destination held {at_return:?}, in the end {got:?}: a notification was sent after cancel had returned")); }
                     if !outs[victim] && !got.is_empty() { bad.push(format!("no destination but got {got:?}")); }
                     if o.permits[victim] != 1 { bad.push(format!("permit not returned: {}", o.permits[victim])); }
                     if !bad.is_empty() { failures.push(json!({"witness": if got.iter().any(|g| g.starts_with("Err(")) { "C15-a:cancel-consumes-own-notify" } else { "C15:other" }, "failure": bad, "case": desc(json!({"cancel_at": at, "victim": victim, "log": o.log}))})); } }
